@@ -4,7 +4,7 @@ import ast
 from ..core.lin import Lin
 from ..core import prove
 from ..core.kernels import analyse
-from ..core.srcmodel import dotted, unparse, norm, walk_no_nested, AnalysisError
+from ..core.srcmodel import dotted, unparse, norm, walk_no_nested, AnalysisError, clone_pos
 from ..spec.contracts import CONTRACTS
 
 UTIL = 'abacusnbody/util.py'
@@ -317,35 +317,169 @@ def _typed_add_helper(src, name, like_arg, caller):
     ps = [a.arg for a in ov.args.args]
     if len(ps) != 3:
         return False, 'overload signature is not (total, x, like)'
-    ifs = [n for n in ov.body if isinstance(n, ast.If)]
-    if len(ifs) != 1:
-        return False, 'overload does not branch on the argument types'
-    t = unparse(ifs[0].test).replace(' ', '')
-    cond = isinstance(ifs[0].test, ast.BoolOp) and isinstance(ifs[0].test.op, ast.And) and f'isinstance({ps[1]},' in t and 'types.Integer' in t.split(f'isinstance({ps[2]},')[0] \
-        and f'isinstance({ps[2]},types.Integer)' in t
-    if not cond:
-        return False, f'dispatch condition is "{unparse(ifs[0].test)[:80]}", need: x integer/bool and like integer'
+    # Evaluate the overload for every pairing of argument type classes: the function is a small decision procedure over
+    # isinstance tests of its parameters, so it is interpreted (not pattern-matched) and the implementation it returns is
+    # compared with the required one.  Anything the interpreter does not know makes the rule fail closed.
+    seen = 0
+    for xk in ('Integer', 'Boolean', 'Float'):
+        for lk in ('Integer', 'Float'):
+            try:
+                clo = _Dispatch(mod, {ps[1]: xk, ps[2]: lk}, ps).call(ov, [_TypeOf(p) for p in ps])
+            except _NoEval as e:
+                return False, f'overload of {name} cannot be evaluated for x:{xk}, like:{lk}: {e}'
+            if not isinstance(clo, _Closure):
+                return False, f'overload of {name} returns no implementation for x:{xk}, like:{lk}'
+            expr = clo.returned(ps)
+            if expr is None:
+                return False, f'implementation {clo.fn.name} for x:{xk}, like:{lk} is not a single returned expression'
+            want_int = xk in ('Integer', 'Boolean') and lk == 'Integer'
+            if want_int and expr not in ('T(total+T(x))', 'T(T(x)+total)'):
+                return False, f'for x:{xk}, like:{lk} the implementation returns {expr}, need T(total + T(x)) with T = type of like'
+            if not want_int and expr not in ('total+x', 'x+total'):
+                return False, f'for x:{xk}, like:{lk} the implementation returns {expr}, need total + x'
+            seen += 1
+    return seen == 6, ''
 
-    def impl_of(stmts):
-        fs = [n for n in stmts if isinstance(n, ast.FunctionDef)]
-        if len(fs) != 1:
-            return None, None
-        rs = [n for n in walk_no_nested(fs[0]) if isinstance(n, ast.Return)]
-        return (fs[0], rs[0].value) if len(rs) == 1 else (None, None)
-    fi, ri = impl_of(ifs[0].body)
-    fo, ro = impl_of(ifs[0].orelse)
-    if fi is None or fo is None:
-        return False, 'each branch must define one implementation with one return'
-    pi, po = [a.arg for a in fi.args.args], [a.arg for a in fo.args.args]
-    tdef = [n for n in ifs[0].body if isinstance(n, ast.Assign) and len(n.targets) == 1 and isinstance(n.targets[0], ast.Name) and unparse(n.value) == ps[2]]
-    T = tdef[0].targets[0].id if tdef else None
-    ok_int = T is not None and len(pi) == 3 and unparse(ri).replace(' ', '') in (f'{T}({pi[0]}+{T}({pi[1]}))', f'{T}({T}({pi[1]})+{pi[0]})')
-    ok_oth = len(po) == 3 and unparse(ro).replace(' ', '') in (f'{po[0]}+{po[1]}', f'{po[1]}+{po[0]}')
-    if not ok_int:
-        return False, f'integer implementation returns {unparse(ri)[:50]}, need T(total + T(x)) with T = type of like'
-    if not ok_oth:
-        return False, f'general implementation returns {unparse(ro)[:50]}, need total + x'
-    return True, ''
+
+class _NoEval(Exception):
+    pass
+
+
+class _TypeOf:
+    """The numba type object bound to a parameter of the overload."""
+    def __init__(self, param):
+        self.param = param
+
+
+class _Closure:
+    def __init__(self, fn, env):
+        self.fn, self.env = fn, env
+
+    def returned(self, ovparams):
+        """Canonical text of the single returned expression: own parameters -> total/x/like by position, free names
+        bound to the type of `like` -> T; local single assignments are substituted."""
+        ps = [a.arg for a in self.fn.args.args]
+        if len(ps) != 3:
+            return None
+        body = [n for n in self.fn.body if not (isinstance(n, ast.Expr) and isinstance(n.value, ast.Constant))]
+        local = {}
+        for n in body[:-1]:
+            if isinstance(n, ast.Assign) and len(n.targets) == 1 and isinstance(n.targets[0], ast.Name):
+                local[n.targets[0].id] = n.value
+            else:
+                return None
+        if not body or not isinstance(body[-1], ast.Return) or body[-1].value is None:
+            return None
+        canon = dict(zip(ps, ('total', 'x', 'like')))
+        env = self.env
+
+        class Sub(ast.NodeTransformer):
+            def visit_Name(s, n):
+                if n.id in local:
+                    return s.visit(local[n.id])
+                if n.id in canon:
+                    return ast.Name(id=canon[n.id], ctx=ast.Load())
+                v = env.get(n.id)
+                if isinstance(v, _TypeOf):
+                    return ast.Name(id='T' if v.param == ovparams[2] else f'typeof_{v.param}', ctx=ast.Load())
+                return n
+        import copy
+        e = Sub().visit(clone_pos(body[-1].value))
+        return unparse(e).replace(' ', '')
+
+
+class _Dispatch:
+    """Interpreter for the type-dispatch function of numba.extending.overload: straight-line code, if/else, isinstance tests of
+    the parameters against numba type classes, nested implementation functions, module-level factories."""
+    KNOWN = {'Integer': {'Integer'}, 'Boolean': {'Boolean'}, 'Float': {'Float'}}
+
+    def __init__(self, mod, kinds, ovparams):
+        self.mod, self.kinds, self.ovparams = mod, kinds, ovparams
+        self.mfuncs = {n.name: n for n in mod.body if isinstance(n, ast.FunctionDef)}
+        self.depth = 0
+
+    def call(self, fn, args):
+        self.depth += 1
+        if self.depth > 4:
+            raise _NoEval('call depth')
+        ps = [a.arg for a in fn.args.args]
+        if len(ps) != len(args) or fn.args.vararg or fn.args.kwarg or fn.args.kwonlyargs:
+            raise _NoEval(f'call of {fn.name} with {len(args)} argument(s)')
+        env = dict(zip(ps, args))
+        r = self.block(fn.body, env)
+        self.depth -= 1
+        return r[1] if r else None
+
+    def block(self, stmts, env):
+        for n in stmts:
+            if isinstance(n, ast.Expr) and isinstance(n.value, ast.Constant):
+                continue
+            if isinstance(n, ast.Pass):
+                continue
+            if isinstance(n, ast.FunctionDef):
+                env[n.name] = _Closure(n, env)
+                continue
+            if isinstance(n, ast.Assign) and len(n.targets) == 1 and isinstance(n.targets[0], ast.Name):
+                env[n.targets[0].id] = self.ev(n.value, env)
+                continue
+            if isinstance(n, ast.If):
+                t = self.ev(n.test, env)
+                if not isinstance(t, bool):
+                    raise _NoEval(f'test {unparse(n.test)[:60]} is not decided by the argument types')
+                r = self.block(n.body if t else n.orelse, env)
+                if r:
+                    return r
+                continue
+            if isinstance(n, ast.Return):
+                return ('ret', self.ev(n.value, env) if n.value is not None else None)
+            raise _NoEval(f'statement {unparse(n)[:60]}')
+        return None
+
+    def ev(self, e, env):
+        if isinstance(e, ast.Constant) and isinstance(e.value, bool):
+            return e.value
+        if isinstance(e, ast.Name):
+            if e.id in env:
+                return env[e.id]
+            if e.id in self.mfuncs:
+                return _Closure(self.mfuncs[e.id], {})
+            raise _NoEval(f'name {e.id}')
+        if isinstance(e, ast.Lambda):
+            fn = ast.FunctionDef(name='<lambda>', args=e.args, body=[ast.Return(value=e.body)], decorator_list=[])
+            return _Closure(fn, env)
+        if isinstance(e, ast.UnaryOp) and isinstance(e.op, ast.Not):
+            v = self.ev(e.operand, env)
+            if not isinstance(v, bool):
+                raise _NoEval(unparse(e)[:60])
+            return not v
+        if isinstance(e, ast.BoolOp):
+            vs = [self.ev(v, env) for v in e.values]
+            if not all(isinstance(v, bool) for v in vs):
+                raise _NoEval(unparse(e)[:60])
+            return all(vs) if isinstance(e.op, ast.And) else any(vs)
+        if isinstance(e, ast.IfExp):
+            t = self.ev(e.test, env)
+            if not isinstance(t, bool):
+                raise _NoEval(unparse(e.test)[:60])
+            return self.ev(e.body if t else e.orelse, env)
+        if isinstance(e, ast.Call) and isinstance(e.func, ast.Name) and e.func.id == 'isinstance' and len(e.args) == 2 and not e.keywords:
+            v = self.ev(e.args[0], env)
+            if not isinstance(v, _TypeOf) or v.param not in self.kinds:
+                raise _NoEval(f'isinstance of {unparse(e.args[0])[:40]}')
+            classes = e.args[1].elts if isinstance(e.args[1], ast.Tuple) else [e.args[1]]
+            kind = self.kinds[v.param]
+            res = False
+            for c in classes:
+                cn = dotted(c).split('.')[-1] if dotted(c) else None
+                if cn not in self.KNOWN:
+                    raise _NoEval(f'type class {unparse(c)[:40]}')
+                res = res or cn == kind
+            return res
+        if isinstance(e, ast.Call) and isinstance(e.func, ast.Name) and not e.keywords:
+            f = self.ev(e.func, env)
+            if isinstance(f, _Closure) and not f.env and f.fn.name in self.mfuncs:
+                return self.call(f.fn, [self.ev(a, env) for a in e.args])
+        raise _NoEval(f'expression {unparse(e)[:60]}')
 
 
 # ------------------------------------------------------------------ call sites
